@@ -315,5 +315,18 @@ PROPS["C20"] = {
     "assumptions": ["cfb 0.10 behaves as a map from names to byte strings; Stream drop after an explicit flush is silent"],
 }
 
+PROPS["C16"] = {
+    "module": "MsiProofs.Props.C16",
+    "gen": ["limits", "summary"],
+    "profiles": ["dev"],
+    "theorems": ["MsiProofs.C16.open_clean", "MsiProofs.C16.readonly_step_same", "MsiProofs.C16.close_clean", "MsiProofs.C16.readonly_session"],
+    "level_text": "Lean theorem over every opened container and every finite sequence of read-only requests (induction over the request list): the package state is unchanged, an opened package has no finisher and nothing pending, and closing it by flush, into_inner or drop leaves the container byte-for-byte as opened. Tie: on the real crate a write-counting medium reports zero writes and identical bytes for sessions of random read-only calls (selects, joins, snapshots, stream listing/reading, has_*) over packages produced by random histories, in all three close modes; the same requests run on the model.",
+    "level_note": PROPS["C01"]["level_note"] + " cfb's own behaviour on open/read (K5: no medium write) is observed by the counting medium, not proved.",
+    "technique": "Lean 4 proof (induction over read-only request lists) + write-counting medium on the real crate",
+    "rule": "packages produced by seeded random histories (tables, rows, streams, summary), saved and reopened; then 0-11 read-only calls; then close in a random mode on a counting medium. non-trivial = sessions closed",
+    "trusted_base": PROPS["C01"]["trusted_base"],
+    "assumptions": ["cfb issues no medium write for open_stream / exists / iteration (observed every run)"],
+}
+
 # reasons for properties not claimed (yet); everything else defaults to "not yet built"
 NOT_CLAIMED = {}
